@@ -502,11 +502,28 @@ func mountsHandTheirSourceARootedPath(c *core.Ctx) {
 				}
 				n++
 				bad := ""
+				cur := fn // the function whose blocks the value lives in
 				var visit func(v ssa.Value, from, to *ssa.BasicBlock, d int)
 				visit = func(v ssa.Value, from, to *ssa.BasicBlock, d int) {
 					if d > 6 {
 						bad = "too deep"
 						return
+					}
+					// the path is made by a helper of the package: every string it returns
+					if call, isCall := v.(*ssa.Call); isCall {
+						if cal := call.Call.StaticCallee(); cal != nil && cal.Blocks != nil && cal.Pkg == fn.Pkg && cal != cur && cal.Signature.Results().Len() == 1 {
+							saved := cur
+							cur = cal
+							for _, cb := range cal.Blocks {
+								for _, cin := range cb.Instrs {
+									if cr, ok := cin.(*ssa.Return); ok && len(cr.Results) == 1 {
+										visit(cr.Results[0], cb, cb, d+1)
+									}
+								}
+							}
+							cur = saved
+							return
+						}
 					}
 					switch x := v.(type) {
 					case *ssa.Const:
@@ -525,7 +542,7 @@ func mountsHandTheirSourceARootedPath(c *core.Ctx) {
 					default:
 						// a value that passed strings.HasPrefix(v, "/") on the way to `from`
 						ok := false
-						for _, b2 := range fn.Blocks {
+						for _, b2 := range cur.Blocks {
 							if len(b2.Instrs) == 0 {
 								continue
 							}
